@@ -74,7 +74,10 @@ Definition tok_answer (ts : list N) : option (ianswer * list N) :=
   end.
 
 Record ialloc := { i_via : N; i_rq : N; i_lost : bool; i_locked : bool; i_op : op; i_tlo : N; i_thi : N; i_ans : ianswer; i_opt51 : option N; i_rows : list row }.
-Inductive ievent := IAlloc (a : ialloc) | ITick (d : N) | IRestart (rows : list row) | IKill (rows : list row).
+(* IReplay k (C18, last event): the same events run once more on a store that is never closed answer the k-th
+   allocation differently (another address, or a refusal for an address); 0: the same throughout *)
+Inductive ievent := IAlloc (a : ialloc) | ITick (d : N) | IRestart (rows : list row) | IKill (rows : list row)
+                  | IReplay (k : N).
 
 Definition tok_event (ts : list N) : option (ievent * list N) :=
   match ts with
@@ -84,6 +87,7 @@ Definition tok_event (ts : list N) : option (ievent * list N) :=
         | 2 :: d :: r => Some (ITick d, r)
         | 3 :: r => match tok_rows r with Some (rows, r') => Some (IRestart rows, r') | None => None end
         | 4 :: r => match tok_rows r with Some (rows, r') => Some (IKill rows, r') | None => None end
+        | 7 :: k :: r => Some (IReplay k, r)
         | _ => None
         end
       else
@@ -117,6 +121,7 @@ Definition tok_event (ts : list N) : option (ievent * list N) :=
   | 2 :: d :: r => Some (ITick d, r)
   | 3 :: r => match tok_rows r with Some (rows, r') => Some (IRestart rows, r') | None => None end
   | 4 :: r => match tok_rows r with Some (rows, r') => Some (IKill rows, r') | None => None end
+  | 7 :: k :: r => Some (IReplay k, r)
   | _ => None
   end.
 
@@ -296,6 +301,12 @@ Fixpoint fold_events (which : N) (s : fstate) (es : list ievent) : list N :=
       if (which =? 18) && negb (rows_same (f_prev s) rows) then v_viol 4 else
       fold_events which {| f_prev := f_prev s; f_log := f_log s; f_now := f_now s; f_idx := f_idx s + 1;
                            f_mask := N.lor (f_mask s) 64; f_diff := f_diff s |} es'
+  | IReplay k :: es' =>
+      (* C18 (S05, restart transparency): what clients are told must not depend on whether the server was
+         restarted in between -- nothing but the store carries over *)
+      if (which =? 18) && negb (k =? 0) then v_viol 6 else
+      fold_events which {| f_prev := f_prev s; f_log := f_log s; f_now := f_now s; f_idx := f_idx s + 1;
+                           f_mask := N.lor (f_mask s) 128; f_diff := f_diff s |} es'
   | IAlloc a :: es' =>
       if negb ((f_now s <=? i_tlo a) && (i_tlo a <=? i_thi a)) then v_bad
       else
